@@ -558,6 +558,139 @@ def r5_effects(L, repo):
     L.require("C05.R5", FT, fn, "SETPOWER stores the attenuation", [("self.trx.tx_att_base", "int(%s[1])" % REQ)], st)
 
 
+def _call_rows(fd, match, loops="body"):
+    """Complete decision table of fd's body: for every valuation of its branch atoms, was a call matching
+    `match(call_text)` executed (inside a condition or a simple statement)?  -> (atoms, [(assign, hit)])"""
+    import itertools
+    state = {"hit": False}
+
+    def on_atom(t):
+        if match(t):
+            state["hit"] = True
+
+    def ev(st):
+        if isinstance(st, (ast.Return, ast.Assign, ast.AugAssign, ast.Expr, ast.Raise)):
+            for c in calls_in(st):
+                if match(canon(c)):
+                    state["hit"] = True
+            if isinstance(st, ast.Return):
+                return ("ret",)
+        return None
+    W = Walker(ev, on_atom=on_atom, loops=loops)
+    atoms = W.atoms(fd.body)
+    if len(atoms) > 10:
+        raise AnalysisError("%s: too many branch atoms for a decision table: %s" % (fd.name, atoms))
+    rows = []
+    for vals in itertools.product([False, True], repeat=len(atoms)):
+        a = dict(zip(atoms, vals))
+        state["hit"] = False
+        W.locals = {}
+        W.walk(fd.body, dict(a), [])
+        rows.append((a, state["hit"]))
+    return atoms, rows
+
+
+def r7_none_frame(L, repo):
+    """R7 (exactly one reply, MEASURE path): a frame number that may be None (an optional parameter left at its
+    default) never reaches the hopping resolver, whose arithmetic would raise TypeError out of the command handler
+    so that no reply is sent. Decided by two decision tables: the callee's (under which valuations of its own
+    conditions does get_rx_freq/get_tx_freq call resolve(fn)) and the caller's (under which valuations is the call
+    made); every row of the caller that makes the call must either know the argument is not None or contradict
+    every resolving row of the callee."""
+    tci = repo.need_class("transceiver", "Transceiver")
+    FT_ = rel("transceiver")
+    L.unit(FT_)
+    need = {}
+    for mname in ("get_rx_freq", "get_tx_freq"):
+        c, m = repo.find_method(tci, mname)
+        if m is None:
+            raise AnalysisError("Transceiver.%s vanished" % mname)
+        L.fn(FT_, "Transceiver." + mname)
+        P = params(m)[1]
+        atoms, rows = _call_rows(m, lambda t, P=P: (".resolve(%s)" % P) in t)
+        res = [a for a, hit in rows if hit]
+        if not res:
+            raise AnalysisError("Transceiver.%s: no path resolves hopping by frame number" % mname)
+        need[mname] = res
+    hci = repo.need_class("gsm_shared", "HoppingParams")
+    hc, hm = repo.find_method(hci, "resolve")
+    if hm is None:
+        raise AnalysisError("HoppingParams.resolve vanished")
+    hp = params(hm)[1]
+    arith = [n for n in ast.walk(hm) if isinstance(n, ast.BinOp) and any(isinstance(x, ast.Name) and x.id == hp for x in (n.left, n.right))]
+    if not arith:
+        raise AnalysisError("HoppingParams.resolve: the frame number is not used arithmetically any more; R7 needs re-derivation")
+    nsites = 0
+    for m in repo.tk_modules():
+        for fd in [n for n in ast.walk(m.tree) if isinstance(n, ast.FunctionDef)]:
+            opt = set()
+            a_ = fd.args
+            for p_, d in zip(a_.args[len(a_.args) - len(a_.defaults):], a_.defaults):
+                if isinstance(d, ast.Constant) and d.value is None:
+                    opt.add(p_.arg)
+            for call in calls_in(fd):
+                f = call.func
+                if not (isinstance(f, ast.Attribute) and f.attr in need):
+                    continue
+                if qualname(call).split(".")[-1] != fd.name and getattr(call, "_func", fd) is not fd:
+                    pass
+                A = call.args[0] if call.args else None
+                if A is None and not call.keywords:
+                    continue
+                if A is None:
+                    A = call.keywords[0].value
+                none_const = isinstance(A, ast.Constant) and A.value is None
+                if not (none_const or (isinstance(A, ast.Name) and A.id in opt)):
+                    continue
+                # nested function defs are visited on their own
+                owner = call
+                while owner is not None and not isinstance(owner, ast.FunctionDef):
+                    owner = getattr(owner, "_parent", None)
+                if owner is not fd:
+                    continue
+                nsites += 1
+                # a TypeError raised by the look-up is handled on the spot
+                caught, q, prev = False, getattr(call, "_parent", None), call
+                while q is not None and q is not fd:
+                    if isinstance(q, ast.Try) and any(prev is x for x in q.body):
+                        for h in q.handlers:
+                            tn = None if h.type is None else canon(h.type)
+                            if tn is None or "TypeError" in tn or tn in ("Exception", "BaseException"):
+                                caught = True
+                    prev, q = q, getattr(q, "_parent", None)
+                if caught:
+                    L.ob("C05.R7", m.rel, qualname(call), "`%s`: TypeError of the look-up is handled locally" % canon(call),
+                         "handled", "handled", True, call.lineno)
+                    continue
+                recv = canon(f.value)
+                ctext_ = canon(call)
+                fn_ = qualname(call)
+                L.unit(m.rel)
+                L.fn(m.rel, fn_)
+                atoms, rows = _call_rows(fd, lambda t, ctext_=ctext_: ctext_ in t)
+                bad = []
+                for a, hit in rows:
+                    if not hit:
+                        continue
+                    if not none_const and a.get("None is %s" % A.id) is False:
+                        continue
+                    contradicted = True
+                    for v in need[f.attr]:
+                        c_ = False
+                        for k, val in v.items():
+                            k2 = re.sub(r"\bself\b", recv, k)
+                            if k2 in a and a[k2] != val:
+                                c_ = True
+                        if not c_:
+                            contradicted = False
+                    if not contradicted:
+                        bad.append({k: v for k, v in a.items()})
+                L.ob("C05.R7", m.rel, fn_,
+                     "`%s`: a frame number that may be None reaches the hopping resolver only when the transceiver does not hop" % ctext_,
+                     [], bad[:3], not bad, call.lineno)
+    L.floor("C05.R7", "frequency look-ups with an optional frame number", nsites, 1)
+
+
 def run(L, tier):
     repo = Repo(L.repo)
     L.stage(r1_one_reply, L, repo)
@@ -566,3 +699,4 @@ def run(L, tier):
     got = L.stage(r4_verb_table, L, repo, tier)
     L.stage(r4_trxcon_sibling, L, repo, got)
     L.stage(r5_effects, L, repo)
+    L.stage(r7_none_frame, L, repo)
